@@ -28,6 +28,7 @@ type World struct {
 	fnByObj map[types.Object][]*ssa.Function
 	cg      *CallGraph
 	files   map[string][]byte
+	Overlay map[string][]byte
 	Whole   bool // loaded with all dependencies from source (thorough tier)
 }
 
@@ -72,7 +73,7 @@ func Load(repo string, whole bool, overlay map[string][]byte) (*World, error) {
 		return nil, fmt.Errorf("only %d packages loaded from %s (expected >= 100)", len(pkgs), repo)
 	}
 	w := &World{Repo: repo, Fset: fset, Pkgs: pkgs, ByPath: map[string]*packages.Package{}, SSA: map[string]*ssa.Package{},
-		fnByObj: map[types.Object][]*ssa.Function{}, files: map[string][]byte{}, Whole: whole}
+		fnByObj: map[types.Object][]*ssa.Function{}, files: map[string][]byte{}, Whole: whole, Overlay: overlay}
 	for _, p := range pkgs {
 		w.ByPath[p.PkgPath] = p
 	}
